@@ -71,6 +71,9 @@ Inductive case :=
 (* constrained_quadratic_model.h change_vartype / constrained.py spin_to_binary on the raw CQM state *)
 | CqmCv (target : vartype) (v : nat) (before : Expr.mcqm) (after : option Expr.mcqm)
 | CqmS2B (before after : Expr.mcqm)
+(* VartypeView.energies: rows in the VIEW's domain (given as labelled arrays of any integer / bool / unsigned dtype) with
+   the energies the view returned; each must be the BASE model's energy at the converted row *)
+| ViewEn (d : dir) (vars : list label) (base : obs) (samples : list (list (label * Qc))) (seen : list Qc)
 (* quadratic_model.py / binary_quadratic_model.py flip_variable (the python loops over the neighbourhood) on the reported
    coefficients; vt = vartype of v *)
 | Flip (n : nat) (vt : vartype) (v : label) (before after : obs)
@@ -172,6 +175,8 @@ Definition check (c : case) : bool :=
       (* the same loop over the domain / vartypes generated from constrained.py *)
       && opt_eqb VartypeOps.vo_cqm_eqb
            (option_map norm_marks (VartypeLoopsGen.cqm_stb_loop Gen_VartypeLoops.gen_cqm_stb_loop before)) (Some after)
+  | ViewEn d vars base samples seen =>
+      list_eqb Qc_eqb (map (fun s => energy (obs_poly base) (old_sample d vars s)) samples) seen
   | Flip n vt v before after =>
       match FlipMarks.py_flip_variable vt v (obs_poly before) with
       | Some p => poly_coeff_eqb n p (obs_poly after)
